@@ -322,3 +322,37 @@ def capture_sources(F, cb):
                     for c, op in zip(cb.captures, st["rv"]["ops"]):
                         out[c["var"]] = (pb, pb.value(op))
     return out
+
+
+def path_count_range(b, weight, start=0, targets=None):
+    """(min, max) of the summed block weights over all paths from `start` to a normal return (or to any block in `targets`),
+    with back edges cut (each loop body is traversed at most once). weight: dict bb -> int."""
+    succ = b.succ_map()
+    back = set(b.back_edges())
+    memo = {}
+    exits = set(b.exits()) if targets is None else set(targets)
+    import sys
+    sys.setrecursionlimit(10000)
+
+    def go(x, stack):
+        if x in memo:
+            return memo[x]
+        w = weight.get(x, 0)
+        if x in exits:
+            memo[x] = (w, w)
+            return memo[x]
+        lo, hi = None, None
+        for y in succ[x]:
+            if (x, y) in back or y in stack:
+                continue
+            r = go(y, stack | {x})
+            if r is None:
+                continue
+            lo = r[0] if lo is None else min(lo, r[0])
+            hi = r[1] if hi is None else max(hi, r[1])
+        if lo is None:
+            memo[x] = None  # cannot reach an exit (panic path)
+            return None
+        memo[x] = (lo + w, hi + w)
+        return memo[x]
+    return go(start, frozenset())
